@@ -333,10 +333,25 @@ def bounded_resolve(arg):
                         failures.append({'id': 'resolve', 'canon': 'triggered feedback without a message',
                                          'detail': '; '.join(diffs), 'feedback': specs, 'suppressions': [],
                                          'expected': {'correct': want['correct']}})
+    if prop in ('C02', 'all'):
+        # a score string the resolver cannot read: resolving may fail, but it must not report the submission correct
+        for bad in ('=0', '^50%', '_5', '1.2.3', '+ 5%', 'ten'):
+            for extra in (None, {'label': 'ok', 'category': 'complete', 'correct': True, 'message': 'Done', 'score': None}):
+                specs = [dict(base, score=bad)] + ([dict(base, **extra)] if extra else [])
+                evaluations += 1
+                distinct.add(('unreadable-score', bad, bool(extra)))
+                try:
+                    final = build_and_resolve(specs, [])
+                except Exception:
+                    continue
+                if final is not None and final.correct:
+                    failures.append({'id': 'resolve', 'canon': 'triggered feedback with an unreadable score',
+                                     'detail': 'correct: got True want False (or no result at all)', 'feedback': specs,
+                                     'suppressions': [], 'expected': {'correct': False}})
     return {'name': 'B-resolve', 'bound': '%d random reports (seed %d): 0-5 real Feedback objects over %d categories, '
             '%d priorities, kinds, muted/unscored flags, activation, valence, %d score forms, 0-2 suppressions of every '
             'form; simple resolver against a reference resolver typed from the C01-C03 statements; for C02 also 45 reports whose '
-            'triggered feedback has no message of its own' % (
+            'triggered feedback has no message of its own and 12 whose triggered feedback carries an unreadable score string' % (
                 n, seed, len(CATS), len(PRIOS), len(SCORES)),
             'evaluations': evaluations, 'distinct_nontrivial': len(distinct),
             'rule': 'distinct = (number of feedback, number of suppressions, set of categories); trivial = empty report',
